@@ -1,267 +1,23 @@
-(* Schema/Ops.v — Unserialize / Validate / Serialize / data-mode ValidateCompatibility,
-   following the Go code function by function and path by path (schema/*.go at the
-   repaired tree; every behaviour that used to be a defect is marked with its D-number).
-   Map-based objects; struct-mapped objects are in StructOps.v. *)
+(* Proofs/OpsEq.v — one-step unfolding equations of the five mutually recursive operations, stated
+   with the FOLDED constants (cbn on a mutual fixpoint exposes the sibling functions as raw `fix`
+   terms, which makes goals enormous).  Generated from Schema/Ops.v by copying each body; every
+   equation is proved by reflexivity, so a divergence from Ops.v cannot go unnoticed. *)
 From Verif Require Import Base.Prelude Base.Str Base.Float Base.GoVal
-  Schema.Regex Schema.Units Schema.Syntax.
+  Schema.Regex Schema.Units Schema.Syntax Schema.Ops.
 Open Scope string_scope.
 Open Scope Z_scope.
 
-(* ---------- path segments ---------- *)
-Definition key_text (v : gval) : string :=      (* fmt %v of a map key; only strings/ints/bools are compared *)
-  match v with
-  | VStr _ s => s
-  | VInt _ z => z_to_dec z
-  | VBool _ b => if b then "true" else "false"
-  | _ => "?"
-  end.
-Definition idx_seg (i : Z) : string := "[" ++ z_to_dec i ++ "]".
-Definition mkey_seg (k : gval) : string := "{" ++ key_text k ++ "}".
-Definition mval_seg (k : gval) : string := "[" ++ key_text k ++ "]".
-Definition okey_text (k : okey) : string := match k with KI z => z_to_dec z | KS s => s end.
-Definition oneof_seg (k : okey) : string := "{oneof[" ++ okey_text k ++ "]}".
+Section OpsEq.
+Variable words : list (string * bool).
+Variable pu : units -> string -> option fl.
+Notation unser := (unser words pu).
+Notation validate := (validate words pu).
+Notation serialize := (serialize words pu).
+Notation compat := (compat words pu).
+Notation oneof_find := (oneof_find words pu).
 
-Definition seg {A} (s : string) (o : outcome A) : outcome A := map_err (add_seg s) o.
-(* fmt.Errorf("...%s", err) / &ConstraintError{Message: ...err...}: a fresh error, path lost *)
-Definition rewrap {A} (c : bool) (o : outcome A) : outcome A :=
-  map_err (fun e => mkErr c [] (e_class e)) o.
-
-Definition zlen {A} (l : list A) : Z := Z.of_nat (List.length l).
-Definition size_ok (mn mx : option Z) (n : Z) : bool := ole mn n && oge mx n.
-
-(* ---------- scalars ---------- *)
-
-(* intInputMapper: a type switch on the exact dynamic type *)
-Definition int_mapper (u : option units) (v : gval) : option Z :=
-  match v with
-  | VStr TStr s => match u with Some us => parse_units_int us s | None => parse_int s end
-  | VInt (TInt _) z => if z <=? max_i64 then Some z else None
-  | VFloat TF64 f | VFloat TF32 f => fl_to_i64_exact f
-  | VBool TBool b => Some (if b then 1 else 0)
-  | _ => None
-  end.
-
-Definition int_bounds (mn mx : option Z) (z : Z) : outcome gval :=
-  if size_ok mn mx z then Ok (vi64 z) else Err (cerr EBound).
-
-(* D34 (repaired): a value the mapper cannot read is a constraint error *)
-Definition int_unser (mn mx : option Z) (u : option units) (v : gval) : outcome gval :=
-  match int_mapper u v with Some z => int_bounds mn mx z | None => Err (cerr ERepr) end.
-(* asInt + bounds.  D06 (repaired): nil is an error, not a reflect panic *)
-Definition int_ser (mn mx : option Z) (v : gval) : outcome gval :=
-  match conv_int64 v with Some z => int_bounds mn mx z | None => Err (cerr ERepr) end.
-
-(* parse with units on the float path is in FloatUnits.v; here: the hook *)
-Definition float_mapper (pu : units -> string -> option fl) (u : option units) (v : gval) : option fl :=
-  match v with
-  | VStr TStr s => match u with Some us => pu us s | None => parse_float s end
-  | VInt (TInt _) z => Some (fl_of_Z b64 z)
-  | VFloat TF64 f => Some f
-  | VFloat TF32 f => Some f
-  | VBool TBool b => Some (if b then fl_of_Z b64 1 else FZero false)
-  | _ => None
-  end.
-
-(* D14 (repaired): a bound is satisfied only by an ordered comparison; NaN satisfies none *)
-Definition float_bounds (mn mx : option fl) (f : fl) : outcome gval :=
-  if (match mn with Some m => fle m f | None => true end)
-     && (match mx with Some m => fle f m | None => true end)
-  then Ok (vf64 f) else Err (cerr EBound).
-Definition float_unser pu (mn mx : option fl) (u : option units) (v : gval) : outcome gval :=
-  match float_mapper pu u v with Some f => float_bounds mn mx f | None => Err (cerr ERepr) end.
-Definition float_ser (mn mx : option fl) (v : gval) : outcome gval :=
-  match conv_float64 v with Some f => float_bounds mn mx f | None => Err (cerr ERepr) end.
-
-(* stringInputMapper *)
-Definition string_mapper (v : gval) : option string :=
-  match v with
-  | VStr TStr s => Some s
-  | VInt (TInt _) z => Some (z_to_dec z)
-  | VFloat TF64 f | VFloat TF32 f => Some (fmt_f f)
-  | _ => None
-  end.
-Definition slen (s : string) : Z := Z.of_nat (String.length s).
-Definition string_check (mn mx : option Z) (pat : option (string * re)) (s : string) : outcome gval :=
-  if size_ok mn mx (slen s) then
-    match pat with
-    | Some (_, r) => if re_match_string r s then Ok (vstr s) else Err (cerr EPattern)
-    | None => Ok (vstr s)
-    end
-  else Err (cerr EBound).
-Definition string_unser mn mx pat (v : gval) : outcome gval :=
-  match string_mapper v with Some s => string_check mn mx pat s | None => Err (cerr ERepr) end.
-Definition string_ser mn mx pat (v : gval) : outcome gval :=
-  match conv_string v with Some s => string_check mn mx pat s | None => Err (cerr ERepr) end.
-
-(* BoolSchema.Unserialize: bool, boolean words, integers 0/1 *)
-Definition bool_unser (words : list (string * bool)) (v : gval) : outcome gval :=
-  match v with
-  | VBool TBool b => Ok (vbool b)
-  | VStr TStr s => match alookup (to_lower s) words with Some b => Ok (vbool b) | None => Err (cerr ERepr) end
-  | VInt (TInt _) z => let z' := wrap_i64 z in
-                       if z' =? 1 then Ok (vbool true) else if z' =? 0 then Ok (vbool false) else Err (cerr ERepr)
-  | _ => Err (cerr ERepr)
-  end.
-Definition bool_ser (v : gval) : outcome gval :=
-  match conv_bool v with Some b => Ok (vbool b) | None => Err (cerr ERepr) end.
-
-(* enums *)
-Definition enum_int_mem (vals : list (Z * option display)) (z : Z) : bool := existsb (fun p => fst p =? z) vals.
-Definition enum_str_mem (vals : list (string * option display)) (s : string) : bool := existsb (fun p => String.eqb (fst p) s) vals.
-Definition enum_str_type (named : option string) : gtype :=
-  match named with Some n => TNamed n TStr | None => TStr end.
-
-Definition enum_int_unser vals u (v : gval) : outcome gval :=
-  match int_mapper u v with
-  | Some z => if enum_int_mem vals z then Ok (vi64 z) else Err (cerr EEnum)
-  | None => Err (cerr ERepr)
-  end.
-(* asType: convertible to int64 (and to the unserialized type, also int64) *)
-Definition enum_int_ser vals (v : gval) : outcome gval :=
-  match conv_int64 v with
-  | Some z => if enum_int_mem vals z then Ok (vi64 z) else Err (cerr EEnum)
-  | None => Err (cerr ERepr)
-  end.
-Definition enum_str_unser named vals (v : gval) : outcome gval :=
-  match string_mapper v with
-  | Some s => if enum_str_mem vals s then Ok (VStr (enum_str_type named) s) else Err (cerr EEnum)
-  | None => Err (cerr ERepr)
-  end.
-Definition enum_str_ser vals (v : gval) : outcome gval :=
-  match conv_string v with
-  | Some s => if enum_str_mem vals s then Ok (vstr s) else Err (cerr EEnum)
-  | None => Err (cerr ERepr)
-  end.
-
-(* pattern *)
-Definition pattern_unser (o : oracles) (v : gval) : outcome gval :=
-  match string_mapper v with
-  | Some s => if o_re_ok o s then Ok (VRegexp s) else Err (cerr EPattern)
-  | None => Err (cerr ERepr)
-  end.
-(* D47 (repaired): a typed nil *regexp.Regexp is rejected by Validate, so Serialize cannot
-   dereference it *)
-Definition pattern_validate (v : gval) : outcome gval :=
-  match v with VRegexp _ => Ok VNil | _ => Err (cerr ERepr) end.
-Definition pattern_ser (v : gval) : outcome gval :=
-  match v with VRegexp s => Ok (vstr s) | _ => Err (cerr ERepr) end.
-
-(* ---------- any: checkAndConvert ---------- *)
-
-Definition key_eqb (a b : gval) : bool :=
-  match a, b with
-  | VInt _ x, VInt _ y => x =? y
-  | VStr _ x, VStr _ y => String.eqb x y
-  | VBool _ x, VBool _ y => Bool.eqb x y
-  | VFloat _ x, VFloat _ y => feq x y
-  | _, _ => false
-  end.
-Fixpoint map_set (k v : gval) (l : list (gval * gval)) : list (gval * gval) :=
-  match l with
-  | [] => [(k, v)]
-  | (k', v') :: t => if key_eqb k k' then (k, v) :: t else (k', v') :: map_set k v t
-  end.
-Fixpoint map_get (k : gval) (l : list (gval * gval)) : option gval :=
-  match l with
-  | [] => None
-  | (k', v') :: t => if key_eqb k k' then Some v' else map_get k t
-  end.
-Fixpoint smap_get (k : string) (l : list (gval * gval)) : option gval :=
-  match l with
-  | [] => None
-  | (VStr _ k', v') :: t => if String.eqb k k' then Some v' else smap_get k t
-  | _ :: t => smap_get k t
-  end.
-Fixpoint smap_del (k : string) (l : list (gval * gval)) : list (gval * gval) :=
-  match l with
-  | [] => []
-  | (VStr ty k', v') :: t => if String.eqb k k' then smap_del k t else (VStr ty k', v') :: smap_del k t
-  | x :: t => x :: smap_del k t
-  end.
-
-Fixpoint any_conv (fuel : nat) (v : gval) {struct fuel} : outcome gval :=
-  match fuel with
-  | O => OutOfFuel
-  | S f =>
-    match kind_of v with
-    | KInt I64 => match v with VInt _ z => Ok (vi64 z) | _ => Err (cerr ERepr) end      (* D07 repaired: t.Int() *)
-    (* the mappers' own errors are plain errors here (any.go passes them through unwrapped) *)
-    | KInt _ => match int_mapper None v with Some z => Ok (vi64 z) | None => Err (perr ERepr) end
-    | KF32 => match float_mapper (fun _ _ => None) None v with Some x => Ok (vf64 x) | None => Err (perr ERepr) end
-    | KF64 => match conv_float64 v with Some x => Ok (vf64 x) | None => Err (cerr ERepr) end
-    | KString => match v with VStr _ s => Ok (vstr s) | _ => Err (cerr ERepr) end         (* D07 repaired: t.String() *)
-    | KBool => bool_ser v
-    | KSlice => match v with
-                | VSlice _ _ l => ys <- mapMi (fun i x => seg (idx_seg i) (any_conv f x)) 0 l ;;
-                                  Ok (VSlice t_any_slice false ys)
-                | _ => Err (cerr ERepr)
-                end
-    | KMap => match v with
-              | VMap _ _ kvs =>
-                  r <- fold_left (fun acc kv =>
-                         a <- acc ;;
-                         k' <- seg (mkey_seg (fst kv)) (any_conv f (fst kv)) ;;
-                         v' <- seg (mval_seg k') (any_conv f (snd kv)) ;;
-                         Ok (map_set k' v' a)) kvs (Ok []) ;;
-                  Ok (VMap t_any_map false r)
-              | _ => Err (cerr ERepr)
-              end
-    | _ => Err (cerr ERepr)
-    end
-  end.
-
-(* ---------- objects: presence rules ---------- *)
-
-Definition raw := list (string * gval).         (* map[string]any under construction *)
-Definition raw_set (k : string) (v : gval) (r : raw) : raw :=
-  if amem k r then map (fun kv => if String.eqb (fst kv) k then (k, v) else kv) r else (r ++ [(k, v)])%list.
-Definition raw_to_val (r : raw) : gval := VMap t_str_map false (map (fun kv => (vstr (fst kv), snd kv)) r).
-
-(* validateFieldInterdependencies, properties in the given order *)
-Definition check_prop_rules (set : string -> bool) (name : string) (p : property) : outcome unit :=
-  if set name then
-    if existsb set (p_conflicts p) then Err (cerr_at [name] EPresence) else Ok tt
-  else
-    if p_required p then Err (cerr_at [name] EPresence)
-    else if existsb set (p_required_if p) then Err (cerr_at [name] EPresence)
-    else match p_required_if_not p with
-         | [] => Ok tt
-         | l => if existsb set l then Ok tt else Err (cerr_at [name] EPresence)
-         end.
-Definition check_rules (props : list (string * property)) (set : string -> bool) : outcome unit :=
-  forM_ (fun np => check_prop_rules set (fst np) (snd np)) props.
-
-(* extractObjectDefaultValues / jsonUnmarshal: the default text decoded by encoding/json;
-   for a string-typed property a text that is not JSON is retried in quotes *)
-Definition decode_default (o : oracles) (p : property) (txt : string) : option gval :=
-  match o_json o txt with
-  | Some v => Some v
-  | None => match type_id_of (p_type p) with
-            | IdString => o_json o ("""" ++ txt ++ """")
-            | _ => None
-            end
-  end.
-
-(* the exact key type the object code insists on: map[string]any *)
-Definition is_str_any_map (v : gval) : option (list (gval * gval)) :=
-  match v with
-  | VMap t _ kvs => if gtype_eqb t t_str_map then Some kvs else None
-  | _ => None
-  end.
-
-Definition raw_of_entries (kvs : list (gval * gval)) : raw :=
-  flat_map (fun kv => match fst kv with VStr _ s => [(s, snd kv)] | _ => [] end) kvs.
-
-(* ---------- the four mutually recursive operations ---------- *)
-
-Section WithTables.
-Variable words : list (string * bool).                 (* boolStringValues (Generated/Tables.v) *)
-Variable pu : units -> string -> option fl.            (* UnitsDefinition.ParseFloat *)
-
-Fixpoint unser (fuel : nat) (e : env) (s : schema) (v : gval) {struct fuel} : outcome gval :=
-  match fuel with
-  | O => OutOfFuel
-  | S f =>
+Lemma unser_S (f : nat) (e : env) (s : schema) (v : gval) :
+  unser (S f) e s v =
     match s with
     | SInt mn mx u => int_unser mn mx u v
     | SFloat mn mx u => float_unser pu mn mx u v
@@ -296,14 +52,14 @@ Fixpoint unser (fuel : nat) (e : env) (s : schema) (v : gval) {struct fuel} : ou
     | SObject id _ props =>
         match v with
         | VMap _ _ kvs =>
-            (* convertData: string keys, all declared *)
+            
             r0 <- fold_left (fun acc kv =>
                     a <- acc ;;
                     match fst kv with
                     | VStr TStr k => if amem k props then Ok (a ++ [(k, snd kv)])%list else Err (cerr EKey)
                     | _ => Err (cerr EKey)
                     end) kvs (Ok []) ;;
-            (* defaults for absent properties (a supplied value is never replaced) *)
+            
             let r1 := fold_left (fun a np =>
                         if amem (fst np) a then a
                         else match p_default (snd np) with
@@ -313,7 +69,7 @@ Fixpoint unser (fuel : nat) (e : env) (s : schema) (v : gval) {struct fuel} : ou
                                            end
                              | None => a
                              end) props r0 in
-            (* every present property through its type; a disabled property is an error *)
+            
             r2 <- fold_left (fun acc np =>
                     a <- acc ;;
                     match alookup (fst np) a with
@@ -327,10 +83,10 @@ Fixpoint unser (fuel : nat) (e : env) (s : schema) (v : gval) {struct fuel} : ou
             _ <- check_rules props (fun k => amem k r2) ;;
             Ok (raw_to_val r2)
         | _ =>
-            (* a lone non-map value: shorthand for the single property of a one-property object *)
+            
             match props with
             | [(name, p)] =>
-                (* D34 (repaired): the property's error keeps its constraint and gains the field *)
+                
                 x <- seg name (if p_disabled p then Err (cerr EDisabled) else unser f e (p_type p) v) ;;
                 _ <- check_rules props (fun k => String.eqb k name) ;;
                 Ok (raw_to_val [(name, x)])
@@ -341,7 +97,7 @@ Fixpoint unser (fuel : nat) (e : env) (s : schema) (v : gval) {struct fuel} : ou
         match v with
         | VNil => Err (perr ERepr)
         | VMap _ _ kvs =>
-            (* D09 (repaired): keys are checked before the discriminator is looked up *)
+            
             if forallb (fun kv => match fst kv with VStr TStr _ => true | _ => false end) kvs then
               match smap_get field kvs with
               | None => Err (cerr EKey)
@@ -356,7 +112,7 @@ Fixpoint unser (fuel : nat) (e : env) (s : schema) (v : gval) {struct fuel} : ou
                           x <- unser f e member (VMap t_str_map false clone) ;;
                           match is_str_any_map x with
                           | Some xs =>
-                              (* D12 (repaired): the typed discriminator, and only when the member does not own the field *)
+                              
                               if inlined then Ok x
                               else Ok (VMap t_str_map false
                                          (map_set (vstr field) (match key with KI z => vi64 z | KS s0 => vstr s0 end) xs))
@@ -378,13 +134,11 @@ Fixpoint unser (fuel : nat) (e : env) (s : schema) (v : gval) {struct fuel} : ou
         | Some o => unser f (env_enter e objs) o v
         | None => Panic "root object not found"
         end
-    end
-  end
+    end.
+Proof. reflexivity. Qed.
 
-with validate (fuel : nat) (e : env) (s : schema) (v : gval) {struct fuel} : outcome unit :=
-  match fuel with
-  | O => OutOfFuel
-  | S f =>
+Lemma validate_S (f : nat) (e : env) (s : schema) (v : gval) :
+  validate (S f) e s v =
     match s with
     | SInt mn mx _ => _ <- int_ser mn mx v ;; Ok tt
     | SFloat mn mx _ => _ <- float_ser mn mx v ;; Ok tt
@@ -436,22 +190,17 @@ with validate (fuel : nat) (e : env) (s : schema) (v : gval) {struct fuel} : out
         | Some o => validate f (env_enter e objs) o v
         | None => Panic "root object not found"
         end
-    end
-  end
+    end.
+Proof. reflexivity. Qed.
 
-(* findUnderlyingType + validateMap + deleteDiscriminator, shared by ValidateType and
-   SerializeType: the typed key, the member and the data handed to it *)
-with oneof_find (fuel : nat) (e : env) (types : list (okey * schema)) (ik : bool) (field : string)
-                (inlined : bool) (v : gval) {struct fuel} : outcome (okey * schema * gval) :=
-  match fuel with
-  | O => OutOfFuel
-  | S f =>
+Lemma oneof_find_S (f : nat) (e : env) (types : list (okey * schema)) (ik : bool) (field : string) (inlined : bool) (v : gval) :
+  oneof_find (S f) e types ik field inlined v =
     match v with
-    | VNil => Err (cerr ERepr)                      (* saveConvertTo recovers the reflect panic *)
+    | VNil => Err (cerr ERepr)                      
     | _ =>
       match kind_of v with
       | KMap =>
-          (* D08 (repaired): only map[string]any is a one-of value *)
+          
           match is_str_any_map v with
           | None => Err (cerr ERepr)
           | Some kvs =>
@@ -472,17 +221,15 @@ with oneof_find (fuel : nat) (e : env) (types : list (okey * schema)) (ik : bool
                   end
               end
           end
-      | KStruct => Err (cerr ERepr)                 (* no map-based member has a struct type *)
+      | KStruct => Err (cerr ERepr)                 
       | KPtr => Err (cerr ERepr)
       | _ => Err (cerr ERepr)
       end
-    end
-  end
+    end.
+Proof. reflexivity. Qed.
 
-with serialize (fuel : nat) (e : env) (s : schema) (v : gval) {struct fuel} : outcome gval :=
-  match fuel with
-  | O => OutOfFuel
-  | S f =>
+Lemma serialize_S (f : nat) (e : env) (s : schema) (v : gval) :
+  serialize (S f) e s v =
     match s with
     | SInt mn mx _ => int_ser mn mx v
     | SFloat mn mx _ => float_ser mn mx v
@@ -547,14 +294,11 @@ with serialize (fuel : nat) (e : env) (s : schema) (v : gval) {struct fuel} : ou
         | Some o => serialize f (env_enter e objs) o v
         | None => Panic "root object not found"
         end
-    end
-  end
+    end.
+Proof. reflexivity. Qed.
 
-(* ValidateCompatibility(data): the argument is a value, not a schema *)
-with compat (fuel : nat) (e : env) (s : schema) (v : gval) {struct fuel} : outcome unit :=
-  match fuel with
-  | O => OutOfFuel
-  | S f =>
+Lemma compat_S (f : nat) (e : env) (s : schema) (v : gval) :
+  compat (S f) e s v =
     match s with
     | SInt _ _ _ | SFloat _ _ _ | SBool => _ <- unser f e s v ;; Ok tt
     | SString _ _ _ => match v with VStr TStr _ => _ <- unser f e s v ;; Ok tt | _ => Err (cerr ERepr) end
@@ -565,7 +309,7 @@ with compat (fuel : nat) (e : env) (s : schema) (v : gval) {struct fuel} : outco
             if gtype_eqb t t_str_map || gtype_eqb t (TMap (TInt I64) TAny) then
               forM_ (fun kv => rewrap true (compat f e SAny (snd kv))) kvs
             else if gtype_eqb t t_any_map then
-              (* validateAnyMap: keys int64 or string, all of one kind *)
+              
               match kvs with
               | [] => Ok tt
               | (k0, _) :: _ =>
@@ -583,7 +327,7 @@ with compat (fuel : nat) (e : env) (s : schema) (v : gval) {struct fuel} : outco
             else _ <- any_conv f v ;; Ok tt
         | VSlice t _ l =>
             if gtype_eqb t t_any_slice then
-              (* validateAnyList: every item, then homogeneous kinds *)
+              
               _ <- forM_ (fun x => rewrap true (compat f e SAny x)) l ;;
               match l with
               | [] => Ok tt
@@ -602,8 +346,7 @@ with compat (fuel : nat) (e : env) (s : schema) (v : gval) {struct fuel} : outco
         match v with
         | VSlice _ _ l => _ <- mapMi (fun i x => seg (idx_seg i) (compat f e it x)) 0 l ;; Ok tt
         | VPtr t (Some (VSlice _ _ l)) =>
-            (* D49 (repaired): the kind is taken from reflect.Indirect(value), and so are Len and Index:
-               a pointer whose element type is a slice is read as that slice (a *any is not) *)
+            
             match underlying t with
             | TPtr te => match kind_of_type te with
                          | KSlice => _ <- mapMi (fun i x => seg (idx_seg i) (compat f e it x)) 0 l ;; Ok tt
@@ -625,7 +368,7 @@ with compat (fuel : nat) (e : env) (s : schema) (v : gval) {struct fuel} : outco
     | SObject id _ props =>
         match is_str_any_map v with
         | Some kvs =>
-            (* validateMapTypesCompatibility *)
+            
             let r := raw_of_entries kvs in
             _ <- forM_ (fun kv => match alookup (fst kv) props with
                                   | Some p =>
@@ -666,7 +409,7 @@ with compat (fuel : nat) (e : env) (s : schema) (v : gval) {struct fuel} : outco
         | Some o => compat f (env_enter e objs) o v
         | None => Panic "root object not found"
         end
-    end
-  end.
+    end.
+Proof. reflexivity. Qed.
 
-End WithTables.
+End OpsEq.
